@@ -410,7 +410,7 @@ impl Action {
                             exclude_response_status_codes: other_log_override.exclude_response_status_codes,
                             fallback_log_override: Some(self_log_override.log_override),
                             fallback_rule_id: self_log_override.rule_id.clone(),
-                            unit_id: self_log_override.unit_id.clone(),
+                            unit_id: other_log_override.unit_id,
                         })
                     }
                 }
